@@ -290,15 +290,18 @@ impl liquid::partials::PartialSource for Src {
 
 // ------------------------------------------------------------------ the shared world and the operations
 
-const PARTIALS: [(&str, &str); 5] = [
+const PARTIALS: [(&str, &str); 7] = [
     ("m", "m{% cycle 'a', 'b' %}"),
+    // `m` exists in both spellings, `r` only with the extension that `render` falls back to
+    ("m.liquid", "m-with-extension"),
+    ("r.liquid", "r{% cycle 'a', 'b' %}"),
     ("p", "[{% cycle 'a', 'b', 'c' %}{% yield %}{% cycle 'a', 'b', 'c' %}{% increment pc %}]"),
     ("bad", "{% if %}{{ !! }}"),
     ("q", "<{% include 'p' %}{% yield %}{% ifchanged %}q{% endifchanged %}>"),
     ("boom", "pre{% yield %}{{ undefined_in_partial }}post"),
 ];
 
-const TEMPLATES: [&str; 12] = [
+const TEMPLATES: [&str; 13] = [
     // 0: includes the lazily compiled partial twice
     "A{% yield %}{% include 'p' %}{% yield %}{% increment c %}{% yield %}{% include 'p' %}",
     // 1: broken partial
@@ -328,10 +331,14 @@ const TEMPLATES: [&str; 12] = [
     // 11: parsed concurrently by two threads (never parsed before in this world): named and unnamed cycle groups,
     //     filters with arguments, nested blocks, an include - anything the *parser* might intern, cache or number
     "{% cycle 'g': 'a', 'b' %}-{% cycle 'g': 'a', 'b' %}|{% cycle 'h': 1, 2 %}{% cycle 'h': 1, 2 %}|{% cycle 'x', 'y' %}{% cycle 'x', 'y' %}|{% for i in (1..2) %}{% cycle 'g': 'a', 'b' %}{{ i | plus: 1 | append: who }}{% endfor %}{% include 'm' %}",
+    // 12: a render tag whose partial name is dynamic and resolves differently per data object (bare name that
+    //     also exists with the extension / name that exists only with the extension), executed twice per render
+    "{% for k in (1..2) %}{% render rwhich %}{% yield %}{% endfor %}",
 ];
 
-const FIRST_PARSED_BY_THE_THREADS: [usize; 2] = [11, 12];
-/// Template 12 is generated: DEEP nested blocks (if / for / unless in turn) around one output.  Anything
+const DEEP_IDX: usize = TEMPLATES.len();
+const FIRST_PARSED_BY_THE_THREADS: [usize; 2] = [11, DEEP_IDX];
+/// Template DEEP_IDX (the one after the constant ones) is generated: DEEP nested blocks (if / for / unless in turn) around one output.  Anything
 /// the parser counts, pools or limits *per parse* (nesting depth, node budgets, arenas) but keeps
 /// where every parse through the same parser sees it shows up when two such parses overlap.
 const DEEP: usize = 64;
@@ -395,6 +402,7 @@ fn world() -> World {
     data.insert("who".into(), liquid::model::Value::scalar("A"));
     data.insert("list".into(), liquid::model::Value::Array(vec![liquid::model::Value::scalar(1i64), liquid::model::Value::scalar(2i64)]));
     data.insert("which".into(), liquid::model::Value::scalar("m"));
+    data.insert("rwhich".into(), liquid::model::Value::scalar("m"));
     data.insert("n".into(), liquid::model::Value::scalar(3i64));
     data.insert("lim".into(), liquid::model::Value::scalar(2i64));
     data.insert("ts".into(), liquid::model::Value::scalar("2020-02-29 23:59:59 +0530"));
@@ -403,6 +411,7 @@ fn world() -> World {
     data_b.insert("who".into(), liquid::model::Value::scalar("B"));
     data_b.insert("list".into(), liquid::model::Value::Array(vec![liquid::model::Value::scalar("x")]));
     data_b.insert("which".into(), liquid::model::Value::scalar("p"));
+    data_b.insert("rwhich".into(), liquid::model::Value::scalar("r"));
     data_b.insert("n".into(), liquid::model::Value::scalar(2i64));
     data_b.insert("lim".into(), liquid::model::Value::scalar(5i64));
     data_b.insert("ts".into(), liquid::model::Value::scalar("1999-12-31 00:00:01 -0330"));
@@ -495,7 +504,8 @@ fn harnesses() -> Vec<Harness> {
         Harness { name: "H10", what: "four threads first-touch the same not-yet-compiled partial at once (more contenders than any other harness)", plan: vec![vec![Op::Render(6)], vec![Op::Render(6)], vec![Op::StoreTryGet("m")], vec![Op::Render(6)]] },
         Harness { name: "H11", what: "two threads parse the same never-seen template text with the shared parser at once, then render their copies (state the parser keeps across parse calls: interning, numbering, caches)", plan: vec![vec![Op::ParseRender(11)], vec![Op::ParseRender(11)]] },
         Harness { name: "H12", what: "two threads parse *different* texts with the shared parser, each twice (anything the parser remembers between parse calls must be keyed correctly and updated atomically)", plan: vec![vec![Op::ParseRender(6), Op::ParseRender(6)], vec![Op::ParseRender(10), Op::ParseRender(10)]] },
-        Harness { name: "H13", what: "two threads parse (then render) a template nested 64 blocks deep with the shared parser at once (per-parse counters, limits or pools kept where all parses through one parser see them)", plan: vec![vec![Op::ParseRender(12)], vec![Op::ParseRender(12)]] },
+        Harness { name: "H13", what: "two threads parse (then render) a template nested 64 blocks deep with the shared parser at once (per-parse counters, limits or pools kept where all parses through one parser see them)", plan: vec![vec![Op::ParseRender(DEEP_IDX)], vec![Op::ParseRender(DEEP_IDX)]] },
+        Harness { name: "H14", what: "one template whose render tag names its partial dynamically: one data object names a partial stored under both spellings, the other a partial stored only with the extension (anything the tag learns about name resolution in one execution must not steer another)", plan: vec![vec![Op::Render(12)], vec![Op::RenderB(12)]] },
         Harness { name: "H5", what: "a render that fails midway (partial error, missing partial) while another renders", plan: vec![vec![Op::Render(4)], vec![Op::Render(3)], vec![Op::Render(5)]] },
     ]
 }
@@ -783,7 +793,7 @@ fn main() {
     // counterexample found has the fewest preemptions
     let tasks: Vec<(usize, usize, bool)> = if tier.thorough() {
         let mut t = vec![(0, 0, true)];
-        for (hi, maxb) in [(1usize, 5usize), (2, 4), (3, 4), (4, 3), (5, 4), (6, 5), (7, 3), (8, 3), (9, 2), (10, 3), (11, 3), (12, 3), (13, 3)] {
+        for (hi, maxb) in [(1usize, 5usize), (2, 4), (3, 4), (4, 3), (5, 4), (6, 5), (7, 3), (8, 3), (9, 2), (10, 3), (11, 3), (12, 3), (13, 3), (14, 3)] {
             for b in 0..=maxb {
                 t.push((hi, b, false));
             }
@@ -791,7 +801,7 @@ fn main() {
         t
     } else {
         let mut t = vec![];
-        for (hi, maxb) in [(0usize, 3usize), (1usize, 2usize), (2, 2), (3, 2), (4, 1), (5, 2), (6, 2), (7, 1), (8, 2), (9, 1), (10, 2), (11, 2), (12, 2), (13, 1)] {
+        for (hi, maxb) in [(0usize, 3usize), (1usize, 2usize), (2, 2), (3, 2), (4, 1), (5, 2), (6, 2), (7, 1), (8, 2), (9, 1), (10, 2), (11, 2), (12, 2), (13, 2), (14, 1)] {
             for b in 0..=maxb {
                 t.push((hi, b, false));
             }
